@@ -192,6 +192,15 @@ CLAIMS.update({
 })
 
 
+FR_NOTE = ("Trusted: TLC/SANY and the python driver; the harness plumbing (an AsyncWrite sink with scripted partial / zero / pending writes, sha1 identities of frames and bytes, wire and adversary bookkeeping); the cfg-guarded hooks (SendBuffer projections, TcpTransport::verif_chunk / verif_hello, the client VerifTransport facade); apply_security / verify_and_remove_security used to read chunk headers back from real bytes.")
+CLAIMS.update({
+    "C11": dict(engine="framing", level="model_checking", note=FR_NOTE + " Bounded: every segmentation only for streams of <= 3 abstract frames; real streams get exhaustive cuts near header and frame ends, sampled cut sets and the all-single-byte schedule.",
+                text="Framing.tla (TcpCodec::decode driven as FramedRead drives it: 9-byte header peek, declared size against the maximum, yield at message_size, end of stream; the client SendBuffer machine {Writing, Reading(end)} with accepted / zero-byte / Pending writes) is model-checked by TLC with the FramingProps monitor attached, for every segmentation of every stream of <= 3 abstract frames and every partial / zero / pending write sequence of scripts of <= 10 secured bytes (three deviation models violate the monitor). TLC generates segmentations of streams of REAL HEL / ACK / ERR / OPN / CLO / MSG frames and partial-write schedules (exhaustive near header ends and frame ends, simulation-sampled, all single bytes); they are replayed on the real TcpCodec and SendBuffer and the observations (frames yielded, bytes emitted after every write) are judged by the same monitor in TLC."),
+    "C12": dict(engine="seqnum", level="model_checking", note=FR_NOTE + " Bounded: open channel (one id, one token), no u32 wrap-around, a receiver that rejected has closed the connection. MessageWriter never splits a response, so multi-chunk responses reach the client receiver only from a chunking peer.",
+                text="SeqNum.tla (client SendBuffer and server MessageWriter counters, the server process_chunk path, the client TransportState path with per-request chunk storage, validate_chunks / decode; adversary moves on the head of a wire: reorder, duplicate, drop, replay a message, foreign channel id, mixed request ids) is model-checked by TLC with the SeqNumProps monitor for <= 6 messages of 1..3 chunks and <= 2 moves (three deviation models, incl. the pinned client merge_chunks, violate the monitor). The generated histories are replayed on the real send buffer, message writer, server TcpTransport::process_chunk, client TransportState and Chunker::validate_chunks / decode, on policy None and on a Basic256Sha256 SignAndEncrypt channel; emitted chunk headers are parsed back from the real bytes and accept / reject results are judged by the monitor in TLC."),
+})
+
+
 VIEW_NOTE = ("Trusted: TLC/SANY and the CommunityModules; harness/src/srv.rs (socket-less TcpTransport driven through the verif_message hook); the json<->Variant mapping and node / continuation-point numbering in h_view; a 1 ms sleep before each address-space modification (the continuation-point stamp is a wall clock); one session per case on a server shared within the process.")
 CLAIMS.update({
     "C30": dict(engine="browse", level="model_checking", note=VIEW_NOTE + " Two modifications within the clock resolution are not exercised.",
@@ -214,6 +223,7 @@ NOT_APPLICABLE = {
     "C42": "encode/decode fidelity of serde implementations with identity as the only oracle: outside what a TLA+ model decides (DESIGN.md section 5)",
 }
 ENGINES = [
+    {"name": "h_framing", "path": "/verif/h_framing", "serves_properties": ["C11", "C12"], "kind_free_text": "replays Framing.tla segmentations / partial-write schedules on the real TcpCodec and client SendBuffer, and SeqNum.tla histories on the real senders and receivers; judged by TraceFraming / TraceSeqNum"},
     {"name": "h_session", "path": "/verif/h_session", "serves_properties": ["C19", "C20"], "kind_free_text": "replays Session.tla histories and AuthTable.tla points through the real session services of a real server (several endpoint / user configurations); judged by TraceSession / TraceAuthTable"},
     {"name": "h_view", "path": "/verif/h_view", "serves_properties": ["C30", "C32"], "kind_free_text": "replays Browse.tla / Attribute.tla behaviours through the real View, NodeManagement and Attribute services; judged by TraceBrowse / TraceAttribute"},
     {"name": "h_channel", "path": "/verif/h_channel", "serves_properties": ["C07", "C08", "C09"], "kind_free_text": "real chunking + channel security round trips, byte-position tampering and malformed-shape chunks; judged by TraceChunkLayout / TraceTamper / TraceTotality"},
